@@ -49,6 +49,11 @@ def check(ctx, F):
     _FN["F"] = F
     check_no_alloc(ctx, F)
     check_fork_index(ctx, F)
+    from . import C09
+    C09.check_replay_bounds(ctx, F, "C11.one-past")
+    C07.check_clear_statuses(ctx, F, "C11.one-past")
+    # the history lookup is bounded by the length of the stored history (rule instances of C09.pin)
+    C09.check_pin_bounds(ctx, F, "C11.one-past")
     check_growth(ctx, F)
     check_one_past(ctx, F)
     check_views(ctx, F)
@@ -422,4 +427,10 @@ CANARY = {"check": [check_no_alloc],
           "expect": ["C11.no-alloc|new@None::make", "C11.no-alloc|new@None::many", "C11.no-alloc|delete@None::drop", "C11.no-alloc|malloc@None::make",
                      "C11.no-alloc|free@None::make", "C11.no-alloc|include/<vector", "C11.no-alloc|member/Node::owned"],
           "forbid": ["new@None::in_place"]}
+
+
+def final(ctx):
+    # unit counts are array extents: contain() is decided by a static_assert witness (shared with C18.helpers)
+    from . import helpwit
+    helpwit.run(ctx, "C11.views", only={"contain"})
 
